@@ -407,3 +407,239 @@ def run_c11(ctx):
     if drift:
         ctx.drift("%d test invocation(s) executed a different set of test commands than the algorithm model predicted (judged by the property only)" % drift)
     ctx.exhaustive = False
+
+
+# ======================================================================================================== C24
+C24_PKG = {1: "p", 2: "p", 3: "p/q", 4: "p", 5: ""}
+C24_FILE = {"f1": "p/f1.txt", "f2": "p/f2.txt", "e1": "p/d/e1.txt", "e2": "p/d/e2.txt", "g1": "p/q/g1.txt", "r1": "r1.txt"}
+C24_ITEM = {"f1": "f1.txt", "f2": "f2.txt", "e1": "d/e1.txt", "D": "d", "g1": "g1.txt", "r1": "r1.txt"}
+
+
+def c24_label(t):
+    return "//%s:t%d" % (C24_PKG[t], t)
+
+
+def c24_target(t, d, log):
+    lab = c24_label(t)
+    items = ['"%s"' % C24_ITEM[i] for i in sorted(d["files"])]
+    deps = ['"%s"' % c24_label(x) for x in sorted(d["deps"])]
+    extra = ""
+    if d["req"]:
+        extra += '    requires = ["k"],\n'
+    if d["prov"]:
+        extra += '    provides = {"k": "%s"},\n' % c24_label(d["prov"])
+    extra += '    visibility = ["PUBLIC"],\n'
+    if d["kind"] == "gen":
+        cmd = ("echo 'S %s' >> %s; printf %s > $OUT; for s in $SRCS; do find $s -type f | sort | xargs cat >> $OUT; done"
+               % (lab, log, d["cmd"]))
+        return ('genrule(\n    name = "t%d",\n    srcs = [%s],\n    outs = ["t%d.out"],\n    cmd = %s,\n%s)\n'
+                % (t, ", ".join(items + deps), t, json.dumps(cmd), extra))
+    if d["kind"] == "fg":
+        return 'filegroup(\n    name = "t%d",\n    srcs = [%s],\n%s)\n' % (t, ", ".join(items + deps), extra)
+    if d["kind"] == "test":
+        data = ['"%s"' % C24_ITEM[i] for i in sorted(d["data"])] + ['"%s"' % c24_label(x) for x in sorted(d["ddeps"])]
+        return ('gentest(\n    name = "t%d",\n    test_cmd = "true",\n    data = [%s],\n    deps = [%s],\n    no_test_output = %s,\n%s)\n'
+                % (t, ", ".join(data), ", ".join(deps), "True" if d["noout"] else "False", extra))
+    raise vlib.Infra("unknown kind %s" % d["kind"])
+
+
+def c24_tree(defs, changed, cfg, log):
+    tree = {path: "v%d:%s\n" % (1 if f in changed else 0, f) for f, path in C24_FILE.items()}
+    builds = {"": "", "p": "", "p/q": ""}
+    for i, d in enumerate(defs):
+        if d["present"]:
+            builds[C24_PKG[i + 1]] += c24_target(i + 1, d, log) + "\n"
+    for pk, text in builds.items():
+        tree[os.path.join(pk, "BUILD")] = text
+    tree[".gitignore"] = "plz-out\n"
+    return tree
+
+
+def c24_config(cfg):
+    return "[buildconfig]\nverif-marker = 1\n" if cfg else ""
+
+
+def c24_outputs(repo, t, d):
+    gen = os.path.join(repo.root, "plz-out", "gen", C24_PKG[t])
+    if d["kind"] == "gen":
+        return {"t%d.out" % t: e2e.snap(os.path.join(gen, "t%d.out" % t))}
+    if d["kind"] == "fg":
+        return {C24_ITEM[i]: e2e.snap(os.path.join(gen, C24_ITEM[i])) for i in sorted(d["files"])}
+    return {}
+
+
+def git(repo, *args):
+    p = subprocess.run(["git", "-c", "user.name=verif", "-c", "user.email=verif@example.invalid", "-c", "commit.gpgsign=false",
+                        "-c", "init.defaultBranch=main", "-c", "core.hooksPath=/dev/null"] + list(args),
+                       cwd=repo.root, env=repo.env({"GIT_CONFIG_NOSYSTEM": "1"}), stdout=subprocess.PIPE, stderr=subprocess.STDOUT, text=True)
+    if p.returncode != 0:
+        raise vlib.Infra("git %s failed in %s:\n%s" % (" ".join(args), repo.root, p.stdout[-1500:]))
+    return p.stdout
+
+
+def query_changes(repo, args):
+    rc, outp, _, _ = repo.plz(["query", "changes"] + args)
+    if rc != 0:
+        raise vlib.Infra("plz query changes %s failed (rc=%d) on a generated repository (harness/spec error?):\n%s" % (args, rc, outp[-2000:]))
+    got = set()
+    for line in outp.splitlines():
+        line = line.strip()
+        for t in C24_PKG:
+            if line == c24_label(t):
+                got.add(t)
+    return got
+
+
+def write_config(repo, cfg):
+    base = "[build]\npath = /usr/local/bin:/usr/bin:/bin\n[cache]\ndir = \n"
+    with open(os.path.join(repo.root, ".plzconfig"), "w") as f:
+        f.write(base + c24_config(cfg))
+
+
+def c24_replay(ctx, idx, case, opts):
+    base = os.path.join(ctx.scratch, "c%d" % idx)
+    os.makedirs(base, exist_ok=True)
+    log = os.path.join(base, "log")
+    repo = TRepo(os.path.join(base, "repo"), log)
+    before, after, changed = case["before"], case["after"], set(case["files"])
+    affected, direct = set(case["affected"]), set(case["direct"])
+    why = e2e.by_target(case["why"]) if not isinstance(case["why"], list) or case["why"] else {}
+    if isinstance(case["why"], list):   # TLC prints a function with domain 1..n as an array
+        why = {i + 1: w for i, w in enumerate(case["why"])}
+    present_b = [i + 1 for i, d in enumerate(before) if d["present"]]
+    present_a = [i + 1 for i, d in enumerate(after) if d["present"]]
+    trace, viols, queries, drift = [], [], 0, 0
+    # ---- before
+    write_config(repo, False)
+    repo.sync(c24_tree(before, set(), False, log))
+    since = "since" in case["modes"]
+    if since:
+        git(repo, "init", "-q", ".")
+        git(repo, "add", "-A")
+        git(repo, "commit", "-q", "-m", "before")
+    really = None
+    if opts.get("crosscheck", True):
+        rc, outp, _, _ = repo.plz(["build"] + [c24_label(t) for t in present_b])
+        if rc != 0:
+            raise vlib.Infra("build of the generated `before` repository fails (harness/spec error):\n%s" % outp[-2000:])
+        snap_b = {t: c24_outputs(repo, t, before[t - 1]) for t in present_b}
+    # ---- after
+    write_config(repo, case["cfg"])
+    repo.sync(c24_tree(after, changed, case["cfg"], log))
+    edit = "files=%s" % sorted(changed)
+    for i, (b, a) in enumerate(zip(before, after)):
+        if b != a:
+            edit += " t%d:%s" % (i + 1, ",".join(k for k in sorted(a) if a[k] != b[k]))
+    if case["cfg"]:
+        edit += " config"
+    trace.append("edit " + edit)
+    if since:
+        git(repo, "add", "-A")
+        git(repo, "commit", "-q", "-m", "after")
+    if opts.get("crosscheck", True):
+        rc, outp, started, _ = repo.plz(["build"] + [c24_label(t) for t in present_a])
+        if rc != 0:
+            raise vlib.Infra("build of the generated `after` repository fails (harness/spec error):\n%s\n%s" % (edit, outp[-2000:]))
+        really = {t for t in present_a if c24_label(t) in started}
+        really |= {t for t in present_a if t in snap_b and c24_outputs(repo, t, after[t - 1]) != snap_b[t]}
+        trace.append("incremental build: really rebuilt or changed = %s" % sorted(really))
+        if not really <= affected:
+            raise vlib.Infra("the spec's Affected %s misses target(s) that really re-executed or changed %s (spec/harness error)\n%s"
+                             % (sorted(affected), sorted(really), edit))
+    # ---- queries
+    for mode in sorted(case["modes"]):
+        if mode == "files":
+            fl = [C24_FILE[f] for f in sorted(changed)]
+            rep = {-1: query_changes(repo, ["--level", "-1"] + fl), 0: query_changes(repo, ["--level", "0"] + fl)}
+        else:
+            rep = {-1: query_changes(repo, ["--since", "HEAD~1", "--level", "-1"]),
+                   0: query_changes(repo, ["--since", "HEAD~1", "--level", "0"])}
+            st = git(repo, "status", "--porcelain")
+            if st.strip():
+                raise vlib.Infra("working tree not clean after plz query changes --since:\n%s" % st)
+        queries += 2
+        trace.append("%s: level -1 -> %s, level 0 -> %s" % (mode, sorted(rep[-1]), sorted(rep[0])))
+        algo = case["algo"][mode]
+        if rep[-1] != set(algo["all"]) or rep[0] != set(algo["zero"]):
+            drift += 1
+        for level, want in ((-1, affected), (0, direct)):
+            for t in sorted(want - rep[level]):
+                if level == -1 and t in direct and t not in rep[0]:
+                    continue    # already reported at level 0
+                viols.append(("C24 not-reported why=%s mode=%s" % (why.get(t, "?"), mode),
+                              dict(case=case, target=t, level=level, mode=mode, reported=sorted(rep[level]), expected=sorted(want),
+                                   really_rebuilt_or_changed=(t in really) if really is not None else None, trace=list(trace))))
+    shutil.rmtree(base, ignore_errors=True)
+    return viols, dict(queries=queries, drift=drift, trace=trace)
+
+
+def c24_key(case):
+    return json.dumps([case["before"], case["after"], sorted(case["files"]), case["cfg"]], sort_keys=True)
+
+
+def c24_class(case):
+    why = case["why"]
+    vals = why if isinstance(why, list) else list(why.values())
+    edits = sorted({w for w in vals if w not in ("dependent",)})
+    return (json.dumps(case["before"], sort_keys=True)[:0] + str(len(case["files"])), tuple(edits), tuple(sorted(case["modes"])))
+
+
+CLAIM24 = dict(
+    category="model_checking", design_ref="DESIGN.md §4 C24",
+    text="Changes.tla models before/after pairs of a five-target repository over three packages (root, p, nested p/q, a plain sub-directory used "
+         "as a directory source, data files and data labels on a gentest, filegroups, require/provide) -- changed file sets, one-field definition "
+         "edits, a new target, a configuration change -- with the property-level sets Direct and Affected and the algorithm of changes.go "
+         "(closest-package ownership, HasSource, RuleHash diff, provide-resolved reverse dependencies up to a level); TLC checks that the algorithm "
+         "never misses and that each recorded flaw is a counterexample, and prints every case; each case is rendered into a scratch repository "
+         "with a real git history and `plz query changes` is run with a file list and with --since at level -1 and 0; a target of Affected "
+         "(level -1) or Direct (level 0) that is not printed is a violation; Affected itself is cross-checked against the targets a real "
+         "incremental build re-executes or whose outputs change.",
+    note="Bounded: 5 target slots, 4 base repositories, <=2 changed files, one definition edit per case; levels -1 and 0 only; a dependent that "
+         "`requires` what a provider provides is taken to depend on the provided target (weakest reading), so only effective edges propagate; "
+         "file-list mode is asked only where no definition changed; manual-labelled targets, subrepos, deleted files and subincludes are not modelled; "
+         "trusted: git, the generated commands' action log, TLC.",
+    technique="TLA+ spec Changes.tla model-checked with TLC; TLC-enumerated before/after cases replayed e2e into `plz query changes` (file list and --since on a real git history)")
+
+
+@register("C24", claim=CLAIM24)
+def run_c24(ctx):
+    vlib.build_plz()
+    ctx.rule = ("every before/after case of Changes.tla (4 base repositories x {1-2 changed files, one-field definition edit [x one changed file in thorough], "
+                "new target, configuration change}) enumerated by TLC; quick: seeded sample stratified by (number of files, reasons, modes); "
+                "non-trivial = Affected has a target beyond Direct or a definition/config edit; distinct by (before, after, files, config)")
+    ctx.assumptions += ["a dependent that requires what a declared dependency provides depends on the provided target, not on the provider (effective edges)",
+                        "reporting more than Affected is allowed",
+                        "with a file list there is no `before`, so definition edits are only asked with --since",
+                        "the spec's Affected must contain every target a real incremental build re-executes or whose outputs change (else exit 2)"]
+    if ctx.replay_only is not None:
+        cases = [d["case"] for d in ctx.replay_only]
+        total = len(cases)
+    else:
+        vlib.tlc(ctx, "Changes", "MC_Changes.cfg", workers=8)
+        for cfg in ("MC_Changes_flaw_provides.cfg", "MC_Changes_flaw_noout.cfg"):
+            fl = vlib.tlc(ctx, "Changes", cfg, workers=4, allow_violation=True)
+            ctx.extra["model_counterexample_" + cfg[11:-4]] = fl.invariant
+        r = vlib.tlc(ctx, "Changes", "GEN_Changes_q.cfg" if ctx.quick else "GEN_Changes_t.cfg", workers=8)
+        seen, cases = set(), []
+        for c in sorted(r.cases, key=c24_key):
+            if c24_key(c) not in seen:
+                seen.add(c24_key(c))
+                cases.append(c)
+        total = len(cases)
+        if ctx.quick:
+            cases = stratified(cases, c24_class, 110, random.Random(ctx.seed))
+    ctx.extra["cases_enumerated_by_tlc"] = total
+    with ThreadPoolExecutor(max_workers=12) as ex:
+        futs = [ex.submit(c24_replay, ctx, i, c, {}) for i, c in enumerate(cases)]
+        results = [(cases[i], f.result()) for i, f in enumerate(futs)]
+    drift = 0
+    for case, (viols, stt) in results:
+        nt = len(case["affected"]) > len(case["direct"]) or case["before"] != case["after"] or case["cfg"]
+        ctx.count(c24_key(case), nontrivial=nt, sample=dict(trace=stt["trace"], affected=case["affected"], direct=case["direct"]) if nt else None)
+        ctx.traces_validated += stt["queries"]
+        drift += stt["drift"]
+        for sig, det in viols:
+            ctx.violation(sig, det)
+    if drift:
+        ctx.drift("%d query mode(s) printed a different set than the algorithm model predicted (judged by the property only)" % drift)
+    ctx.exhaustive = not ctx.quick and ctx.replay_only is None
